@@ -89,7 +89,8 @@ Record state := mkState {
   st_abandoned : nat -> bool;
   st_pend : list (nat * nat);          (* batches: (field context, destination promise), append order;
                                           the table of resolver k is the sub-list with key k *)
-  st_chained : nat -> bool             (* chainedAsyncResolutions *)
+  st_chained : nat -> bool;            (* chainedAsyncResolutions *)
+  st_cancelled : bool                  (* the request context has been cancelled (environment) *)
 }.
 
 Definition upd {A} (f : nat -> A) (i : nat) (v : A) : nat -> A :=
@@ -99,26 +100,29 @@ Definition upd_list {A} (f : nat -> A) (l : list nat) (v : A) : nat -> A :=
   fold_left (fun g i => upd g i v) l f.
 
 Definition init : state :=
-  mkState PPoll (fun _ => false) (fun _ => GNone) (fun _ => None) (fun _ => false) (fun _ => false) [] (fun _ => false).
+  mkState PPoll (fun _ => false) (fun _ => GNone) (fun _ => None) (fun _ => false) (fun _ => false) [] (fun _ => false) false.
 
 Definition set_phase (s : state) (ph : phase) : state :=
-  mkState ph (st_created s) (st_gor s) (st_chan s) (st_taken s) (st_abandoned s) (st_pend s) (st_chained s).
+  mkState ph (st_created s) (st_gor s) (st_chan s) (st_taken s) (st_abandoned s) (st_pend s) (st_chained s) (st_cancelled s).
 Definition set_created (s : state) (w : nat) : state :=
-  mkState (st_phase s) (upd (st_created s) w true) (st_gor s) (st_chan s) (st_taken s) (st_abandoned s) (st_pend s) (st_chained s).
+  mkState (st_phase s) (upd (st_created s) w true) (st_gor s) (st_chan s) (st_taken s) (st_abandoned s) (st_pend s) (st_chained s) (st_cancelled s).
 Definition set_gor (s : state) (w : nat) (g : gst) : state :=
-  mkState (st_phase s) (st_created s) (upd (st_gor s) w g) (st_chan s) (st_taken s) (st_abandoned s) (st_pend s) (st_chained s).
+  mkState (st_phase s) (st_created s) (upd (st_gor s) w g) (st_chan s) (st_taken s) (st_abandoned s) (st_pend s) (st_chained s) (st_cancelled s).
 Definition set_chan (s : state) (w : nat) (c : option result) : state :=
-  mkState (st_phase s) (st_created s) (st_gor s) (upd (st_chan s) w c) (st_taken s) (st_abandoned s) (st_pend s) (st_chained s).
+  mkState (st_phase s) (st_created s) (st_gor s) (upd (st_chan s) w c) (st_taken s) (st_abandoned s) (st_pend s) (st_chained s) (st_cancelled s).
 Definition set_chans (s : state) (ch : nat -> option result) : state :=
-  mkState (st_phase s) (st_created s) (st_gor s) ch (st_taken s) (st_abandoned s) (st_pend s) (st_chained s).
+  mkState (st_phase s) (st_created s) (st_gor s) ch (st_taken s) (st_abandoned s) (st_pend s) (st_chained s) (st_cancelled s).
 Definition set_taken (s : state) (w : nat) : state :=
-  mkState (st_phase s) (st_created s) (st_gor s) (st_chan s) (upd (st_taken s) w true) (st_abandoned s) (st_pend s) (st_chained s).
+  mkState (st_phase s) (st_created s) (st_gor s) (st_chan s) (upd (st_taken s) w true) (st_abandoned s) (st_pend s) (st_chained s) (st_cancelled s).
 Definition set_abandoned (s : state) (w : nat) : state :=
-  mkState (st_phase s) (st_created s) (st_gor s) (st_chan s) (st_taken s) (upd (st_abandoned s) w true) (st_pend s) (st_chained s).
+  mkState (st_phase s) (st_created s) (st_gor s) (st_chan s) (st_taken s) (upd (st_abandoned s) w true) (st_pend s) (st_chained s) (st_cancelled s).
 Definition set_pend (s : state) (l : list (nat * nat)) : state :=
-  mkState (st_phase s) (st_created s) (st_gor s) (st_chan s) (st_taken s) (st_abandoned s) l (st_chained s).
+  mkState (st_phase s) (st_created s) (st_gor s) (st_chan s) (st_taken s) (st_abandoned s) l (st_chained s) (st_cancelled s).
 Definition set_chained (s : state) (f : nat -> bool) : state :=
-  mkState (st_phase s) (st_created s) (st_gor s) (st_chan s) (st_taken s) (st_abandoned s) (st_pend s) f.
+  mkState (st_phase s) (st_created s) (st_gor s) (st_chan s) (st_taken s) (st_abandoned s) (st_pend s) f (st_cancelled s).
+
+Definition set_cancelled (s : state) : state :=
+  mkState (st_phase s) (st_created s) (st_gor s) (st_chan s) (st_taken s) (st_abandoned s) (st_pend s) (st_chained s) true.
 
 (** an item whose promise the executor still waits for *)
 Definition live (p : prog) (s : state) (w : nat) : bool :=
@@ -156,7 +160,8 @@ Inductive label :=
 | LRecv (w : nat)
 | LIdleExit
 | LEnd
-| LExit (w : nat).
+| LExit (w : nat)
+| LCancel.
 
 (** ** Variants of the code covered by the model
     [v_fix]: the goroutines select on executionDone (the [fix:] commit; false = pinned code).
@@ -354,6 +359,15 @@ Definition do_exit (fx : variant) (s : state) (w : nat) : option state :=
   | _ => None
   end.
 
+(** the request context is cancelled (client gone, deadline): an event of the environment that may
+    come at any point, once.  What the code does with it: executeField (executor.go:319) no longer
+    invokes resolvers — in the model the executor simply stops taking [LCreate]; functions given to
+    Go may look at the context and return something else — their result is part of [prog]; the
+    idle handler, the hand-over in Go, chain and join do not look at the context at all: no effect
+    on any other label. *)
+Definition do_cancel (s : state) : option state :=
+  if st_cancelled s then None else Some (set_cancelled s).
+
 (** ** The transition function *)
 
 Definition step (fx : variant) (p : prog) (s : state) (l : label) : option state :=
@@ -371,6 +385,7 @@ Definition step (fx : variant) (p : prog) (s : state) (l : label) : option state
   | LIdleExit => do_idle_exit p s
   | LEnd => do_end p s
   | LExit w => do_exit fx s w
+  | LCancel => do_cancel s
   end.
 
 Fixpoint run (fx : variant) (p : prog) (s : state) (tr : list label) : option state :=
